@@ -245,15 +245,15 @@ Definition textu_unmangle (unm : str -> str -> outcome val) (sfo : option sfield
       else if negb (ty_eqb (fst input) str_ptr_ty) then Panic 8
       else match t with
            | TTextU id false =>
-               (* concrete implementation: the new value is a struct; v.IsNil() panics *)
+               (* concrete (value receiver) implementation: the new value is a struct of type t *)
                match snd input with
-               | VNil => Panic 4
-               | VPtr (VStr s) => _ <- unm id s ;; Panic 4
+               | VNil => Ok (zero_tv t)
+               | VPtr (VStr s) => x <- unm id s ;; Ok (t, x)
                | _ => Panic 250
                end
            | TTextU id true =>
                match snd input with
-               | VNil => Ok (zero_tv t)        (* reflect.Zero(t) with the pointer already stripped *)
+               | VNil => Ok (zero_tv t0)       (* reflect.Zero of the type asked about *)
                | VPtr (VStr s) =>
                    x <- unm id s ;;
                    if was_ptr then Ok (TPtr t, VPtr x) else Ok (t, x)
@@ -262,7 +262,7 @@ Definition textu_unmangle (unm : str -> str -> outcome val) (sfo : option sfield
            | _ =>
                (* t is itself a pointer to a TextUnmarshaler: the new value is a nil pointer *)
                match snd input with
-               | VNil => Ok (zero_tv t)
+               | VNil => Ok (zero_tv t0)
                | _ => Panic 250
                end
            end
